@@ -70,12 +70,28 @@ def main() -> int:
             for gi, g in enumerate(group):
                 d["paths"][f"/zq-coll-{gi}"] = {"get": {"operationId": g, "tags": ["zqcoll"], "responses": {"200": {"description": "ok"}}}}
             descs.append({"position": "colliding_operation_ids", "names": group})
+        if r.random() < 0.2:
+            # multi-tag operations whose module names coincide in a tag that is not the first tag of the later one
+            okr = {"200": {"description": "ok"}}
+            d["paths"]["/zq-mt-a"] = {"get": {"operationId": "listThings", "tags": ["zqmt", "zqshared"], "responses": okr}}
+            d["paths"]["/zq-mt-b"] = {"get": {"operationId": "list_things", "tags": ["zqother", "zqshared"], "responses": okr}}
+            d["paths"]["/zq-mt-c"] = {"get": {"operationId": "list-things", "tags": ["zqthird", "zqother", "zqmt"], "responses": okr}}
+            descs.append({"position": "multi_tag_colliding_operation_ids"})
+        if r.random() < 0.2:
+            # a component object and a nested inline enum / object deriving the same class name (either declaration order)
+            a = {"type": "object", "properties": {"code": {"type": "integer"}}}
+            b = {"type": "object", "properties": {"status": {"type": "string", "enum": ["open", "closed"]}, "detail": {"type": "object", "properties": {"why": {"type": "string"}}}}}
+            items = [("ZqOrderStatus", a), ("ZqOrderDetail", docs.clone(a)), ("ZqOrder", b)]
+            r.shuffle(items)
+            for k_, v_ in items:
+                d["components"]["schemas"][k_] = v_
+            descs.append({"position": "component_vs_inline_class_name"})
         if r.random() < 0.15:
             group = r.choice([["ZqFooBAR", "ZqFooBar"], ["zq-thing", "zq_thing"], ["ZqAbc", "Zqabc"]])
             for g in group:
                 d["components"]["schemas"][g] = {"type": "object", "properties": {"a": {"type": "string"}}}
             descs.append({"position": "colliding_schema_names", "names": group})
-        j = run.job(d, want=["manifest", "tree"], sandbox=[{"a": "getattr", "module": "models", "name": "__all__"}])
+        j = run.job(d, want=["manifest", "tree"], sandbox=[{"a": "getattr", "module": "models", "name": "__all__"}], cfg={"generate_all_tags": i % 3 == 0})
         info[j["id"]] = (f"random:{i}", descs)
         jobs.append(j)
     rs = run.map(jobs, timeout=300)
@@ -152,6 +168,10 @@ def main() -> int:
             if ent and ent.get("cls"):
                 by_cls.setdefault(ent["cls"], []).append(name)
                 mod = (man.get("models") or {}).get(ent["cls"], (man.get("enums") or {}).get(ent["cls"]))
+                want_kind = "models" if ent["kind"] == "ModelProperty" else "enums"
+                if mod is not None and ent["cls"] not in (man.get(want_kind) or {}):
+                    vd.violation("schema_class_taken_over", f"{ref} is a {ent['kind']} but the class {ent['cls']} handed to the templates is of the other kind (an enum / model with the same derived name replaced it) and no diagnostic names it" if ref not in alltext else "", w) if ref not in alltext and name not in alltext else None
+                    continue
                 if mod is None:
                     # the reference resolves to a property whose class was dropped from classes_by_name
                     if ref not in alltext:
